@@ -105,6 +105,8 @@ def run(ctx, rep):
             else:
                 r4.ok(key, "Context::build(context)", okb[0].where())
     # everything in front must forward the protocol
+    # the collecting stage sits behind the limiter (it collects the retained rows) and in front of the sink only
+    P.order(rep, lib)
     P.start_forward(rep, lib)
     P.complete_forward(rep, lib)
     P.complete_once(rep, lib)
